@@ -3,5 +3,6 @@ CONSTANTS MaxDepth = 2
           MaxLen = 2
           Vals <- MCVals
           Limits <- LimitsS
+          MaxClose = 2
 INVARIANTS TypeOK ListLaw ValLaw LevelLaw ReadAhead CloseReaches ClosedOnce
 CHECK_DEADLOCK FALSE
